@@ -467,7 +467,9 @@ def run_batch(engine_name, prop, tier, batch_seed, n_runs=None, budget_s=None, c
                     if budget_s is not None and time.time() - t0 > budget_s:
                         exhausted = True
                         break
-                    if stop_on_violation and batch.violations:
+                    if stop_on_violation and any(
+                            match_known_finding(prop, v['signature'], v['plan'], v['detail']) is None
+                            for v in batch.violations):
                         exhausted = True
                         break
                     try:
